@@ -658,3 +658,78 @@ func TestProp_Stress(t *testing.T) {
 		}
 	})
 }
+
+// TestProp_TwoOwners: a sub-listener may be obtained by several goroutines at once
+// (GetListener hands out the existing one to all but the first); an owner that did
+// not create it accepts a connection ingressed by another non-creator. No data races
+// (the package is built with the race detector), and the connection arrives.
+func TestProp_TwoOwners(t *testing.T) {
+	rec := vkit.Rec(prop)
+	vkit.SetRapidChecks(vkit.N(15))
+	rapid.Check(t, func(t *rapid.T) {
+		name := fmt.Sprintf("c18-owners-%d", listenerSources.Add(1))
+		native := rapid.Bool().Draw(t, "nativeConns")
+		owners := rapid.IntRange(3, 5).Draw(t, "owners")
+		acceptor := rapid.IntRange(0, owners-1).Draw(t, "acceptingOwner")
+		// another owner ingresses (an owner that ingresses and then accepts by itself
+		// would block on its own ingress)
+		ingressor := (acceptor + rapid.IntRange(1, owners-1).Draw(t, "ingressingOwnerOffset")) % owners
+		sp := sharedSplit()
+		start := make(chan struct{})
+		got := make(chan net.Conn, 1)
+		var wg sync.WaitGroup
+		// (each owner notes what it got in a slot of its own, read after all have
+		// finished: the harness adds no synchronisation between the owners)
+		lns := make([]*nodenet.MultiplexingListener, owners)
+		a, b := net.Pipe()
+		defer a.Close()
+		defer b.Close()
+		for i := 0; i < owners; i++ {
+			i := i
+			wg.Add(1)
+			go func() {
+				defer wg.Done()
+				<-start
+				ln, err := sp.GetListener(name, nodeenrollment.WithNativeConns(native))
+				if err != nil {
+					return
+				}
+				ml := ln.(*nodenet.MultiplexingListener)
+				lns[i] = ml
+				if i == ingressor {
+					ml.IngressConn(a, nil)
+				}
+				if i == acceptor {
+					c, _ := ml.Accept()
+					got <- c
+				}
+			}()
+		}
+		close(start)
+		var c net.Conn
+		select {
+		case c = <-got:
+		case <-time.After(10 * time.Second):
+			// releases a blocked ingress or accept
+			if ln, err := sp.GetListener(name, nodeenrollment.WithNativeConns(native)); err == nil {
+				_ = ln.Close()
+			}
+		}
+		wg.Wait()
+		mismatch := false
+		for _, ml := range lns {
+			mismatch = mismatch || ml == nil || ml != lns[0]
+		}
+		desc := map[string]any{"owners": owners, "accepting_owner": acceptor, "ingressing_owner": ingressor, "native_connections": native}
+		rec.Case("two-owners", fmt.Sprint(owners, acceptor, ingressor, native), acceptor != ingressor, func() any { return desc })
+		if mismatch {
+			vkit.Violate(t, prop, "C18/owners-got-different-sub-listeners", "concurrent GetListener calls for one name failed or returned different listeners", desc)
+		}
+		if c != a {
+			vkit.Violate(t, prop, "C18/conn-neither-returned-nor-closed/two-owners", "the connection ingressed by one owner was not returned to the accepting owner", desc)
+		}
+		if lns[0] != nil {
+			_ = lns[0].Close()
+		}
+	})
+}
